@@ -21,3 +21,6 @@ Definition sel_eqb (a b : sel) : bool :=
   match a, b with M1, M1 | C0, C0 | P1, P1 => true | _, _ => false end.
 
 Definition sel_delta (s : sel) : Z := match s with M1 => (-1)%Z | C0 => 0%Z | P1 => 1%Z end.
+
+(* the two mass-assignment schemes *)
+Inductive kind := TSC | CIC.
